@@ -748,7 +748,7 @@ def _confirm(case, text, dbg, m, d, model, f_spec, f_impl, res):
 
 
 def run_cases(cases, jobs=None, solver_kind="z3", timeout_s=120, progress=None):
-    jobs = jobs or min(16, os.cpu_count() or 4)
+    jobs = jobs or int(os.environ.get("VERIF_JOBS") or min(16, os.cpu_count() or 4))
     jobs = max(1, min(jobs, len(cases)))
     t0 = time.time()
     results = []
